@@ -153,7 +153,8 @@ def check_typed(fx, rep, rule, impl):
 def frames_loop_form(fx, sy, fv, slf, tr, rf):
     """frames vector built by a loop: (ok, description). Accepted per-frame bodies (f = the loop element):
        A  peekable(remap_frame(f)): peek is Some -> extend(frames, it)            | else push(frames, f.clone())
-       B  it = remap_frame(f):      next is Some -> push(first); extend(frames, it) | else push(frames, f.clone())"""
+       B  it = remap_frame(f):      next is Some -> push(first); extend(frames, it) | else push(frames, f.clone())
+       C  n = frames.len(); extend(frames, remap_frame(f)); frames.len() == n -> push(frames, f.clone())"""
     V, idx = fv[1], fv[2]
     L = None
     for k_ in sy.loop_order:
@@ -170,7 +171,8 @@ def frames_loop_form(fx, sy, fv, slf, tr, rf):
         if n_.get("k") in ("Var", "Upvar") and n_.get("name") == V:
             vid = n_["id"]
     pre = L["pre"].env.get(vid)
-    pre_ok = pre in (call("std::vec::Vec::with_capacity", call("std::vec::Vec::len", frames_f)), call("std::vec::Vec::new"))
+    pre_ok = pre in (call("std::vec::Vec::with_capacity", call("std::vec::Vec::len", frames_f)), call("std::vec::Vec::new"),
+                     call("std::vec::Vec::with_capacity", call("core::slice::len", frames_f)))
     base = len(L["entry"].conds)
     # the loop's own iterator variable (the one whose pre-loop value is the driver)
     drv_name = None
@@ -216,6 +218,26 @@ def frames_loop_form(fx, sy, fv, slf, tr, rf):
             nx = ("mcall",) + tuple(nexts[0][1:])
             has = a_.get(fc.canon_atom(("is", nx, "Some"))[0])
             form = "B"
+        if has is None:
+            # form C: extend(frames, remap_frame(f)) first, then `frames.len() == <len before>` decides whether f is kept
+            for at_, val_ in a_.items():
+                if at_[0] != "eq":
+                    continue
+                for l_, r_ in ((at_[1], at_[2]), (at_[2], at_[1])):
+                    if l_[0] == "call" and l_[1].endswith("Vec::len") and l_[2][0] == ("loop", V, idx) and r_[0] == "call" and r_[1].endswith("Vec::len") \
+                            and r_[2][0][0] == "after" and r_[2][0][1][0] == "mcall" and r_[2][0][1][1].endswith("Extend::extend") \
+                            and r_[2][0][1][2][:2] == (("place", V, ()), rcall):
+                        form = "C"
+                        has = not val_          # equal lengths: remap_frame yielded nothing
+        if form == "C" and k == S.CONT and on_frames:
+            ext_first = acc and acc[0][1].endswith("Extend::extend") and acc[0][2][1] == rcall
+            if has:
+                n_some += 1
+                okp = okp and ext_first and len(acc) == 1
+            else:
+                n_none += 1
+                okp = okp and ext_first and len(acc) == 2 and acc[1][1].endswith("Vec::push") and R1.canon_iter(acc[1][2][1]) == kept
+            continue
         if k != S.CONT or not on_frames or has is None:
             okp = False
             continue
@@ -372,6 +394,10 @@ def check_text_api(fx, rep, rule, impl):
     enum_form = drv_ is not None and drv_[0] == "call" and drv_[1] == "std::iter::Iterator::enumerate" and len(drv_[2]) == 1 \
         and drv_[2][0][0] == "call" and drv_[2][0][1] == "core::str::lines"
     LINE = mk_field(R.ELEM, "1") if enum_form else R.ELEM
+    # one loop over `input.lines()` with a "first line" flag (true before the loop, false after every iteration)
+    flags = RD_.first_iteration_flags(sy, L) if not enum_form else []
+    flag_form = len(flags) == 1 and drv_ is not None and drv_[0] == "call" and drv_[1] == "core::str::lines"
+    single_loop = enum_form or flag_form
 
     def ref_line(first):
         def ref(o):
@@ -380,6 +406,8 @@ def check_text_api(fx, rep, rule, impl):
             line = LINE
             if first is None:
                 # one loop over `input.lines().enumerate()`: index 0 is the first line, every other index a later line
+                if flag_form:
+                    return ref_line(bool(o(("bool", flags[0][0]))) == flags[0][1])(o)
                 return ref_line(bool(o(("eq", mk_field(R.ELEM, "0"), lit_int(0)))))(o)
             t = call(PT, line)
             f = call(PF, line)
@@ -410,7 +438,7 @@ def check_text_api(fx, rep, rule, impl):
                 return ("no-line",)
         return tuple(ops)
     base = len(L["entry"].conds)
-    bad, n = fc.compare_paths(L["paths"], ref_line(None if enum_form else False), outcome, rw=R.rw_iter, base=base)
+    bad, n = fc.compare_paths(L["paths"], ref_line(None if single_loop else False), outcome, rw=R.rw_iter, base=base)
     report_lines(rep, rule, "%s/text/%s/later-lines" % (rule, impl), b, L["paths"], bad,
                  "frame line -> format_frames(remap_frame); else 'Caused by: ' + throwable -> format_cause(remap_throwable); else the line "
                  "verbatim; exactly one output operation per input line")
@@ -424,12 +452,13 @@ def check_text_api(fx, rep, rule, impl):
                 if e0.get("k") == "If" and F.strip(e0["cond"]).get("k") == "LetExpr" and F.is_call(F.strip(F.strip(e0["cond"])["e"]), "std::iter::Iterator::next"):
                     first_stmt = e0
                     break
-    if enum_form:
+    if single_loop:
         pre_ops = [e for st, o in res for e in st.effects[:next((i for i, x in enumerate(st.effects) if x[0] in ("loopsum", "inloop")), len(st.effects))]
                    if e[0] == "call" and e[2] and e[2][0] == OUT]
         rep.check(rule, "%s/text/%s/first-line" % (rule, impl), not pre_ops, loc=F.short_file(b["sp"]),
-                  found="single loop over input.lines().enumerate(); index 0 takes the first-line rules; %d output operation(s) before the loop" % len(pre_ops),
-                  expected="the first line is handled inside the loop (index 0) and nothing is written before it")
+                  found="single loop over input.lines()%s; %s takes the first-line rules; %d output operation(s) before the loop"
+                  % (".enumerate()" if enum_form else "", "index 0" if enum_form else "the iteration in which flag `%s` still has its initial value" % S.tstr(flags[0][0]), len(pre_ops)),
+                  expected="the first line is handled inside the loop and nothing is written before it")
     elif first_stmt is None:
         rep.undecidable(rule, "%s/text/%s/first-line/shape" % (rule, impl), loc=F.short_file(b["sp"]),
                         construct="no `if let Some(line) = lines.next()` statement before the loop")
